@@ -824,7 +824,17 @@ func (a *Activation) applyContract(st, pre *State, spec *FuncSpec, pkg *packages
 	}
 	// frame
 	if !spec.HasMod || spec.ModAll {
+		savedGhosts := map[string]Term{}
+		for k, v := range st.ghosts {
+			savedGhosts[k] = v
+		}
 		g.havocAllHeaps(st)
+		if len(spec.Ghost) > 0 || spec.Tags["ghost-pure"] {
+			// the ghost effect of this callee is stated explicitly (below)
+			for k, v := range savedGhosts {
+				st.ghosts[k] = v
+			}
+		}
 		if a.topSpecHasMod() {
 			a.frameObligationAll(st, calleeName)
 		}
